@@ -459,6 +459,7 @@ class Engine:
         self.fresh_n = 0
         self.feas_timeout = feas_timeout
         self.paths = 0
+        self.used_assumed = set()
         self.exits = {'normal': 0, 'raise': {}}
 
     # ------------------------------------------------------------------ utilities
@@ -1945,6 +1946,8 @@ class Engine:
     def call_contract(self, key, c, fnode, args, kw, node, selfobj):
         allargs = ([selfobj] if selfobj is not None else []) + list(args)
         env = self.bind_args(fnode, allargs, kw, node)
+        if c.get('assumed') or c.get('trusted'):
+            self.used_assumed.add(key)          # reported in the evidence: this proof relies on an unverified contract
         for pn, ty in c.get('params', {}).items():
             if ty == 'iseq' and isinstance(env.get(pn), VTuple):
                 env[pn] = VSeq(_term(env[pn]))
